@@ -256,6 +256,14 @@ fn alphabet(dist: bool) -> Vec<Item> {
                     v.push(Item { name: iname, frames });
                 }
             }
+            // 600 two-fragment messages open at once (every header, then every continuation): none is forgotten
+            {
+                let half = whole_plain.len() / 2;
+                let mut fr: Vec<(Vec<u8>, Exp)> = vec![];
+                for s in 0..600u64 { let mut h = vec![131u8, 69]; h.extend_from_slice(&(5000 + s).to_be_bytes()); h.extend_from_slice(&2u64.to_be_bytes()); h.push(0); h.extend_from_slice(&whole_plain[half..]); fr.push((frame(&h, 4), Exp::FragPart)); }
+                for s in 0..600u64 { let mut c = vec![131u8, 70]; c.extend_from_slice(&(5000 + s).to_be_bytes()); c.extend_from_slice(&1u64.to_be_bytes()); c.extend_from_slice(&whole_plain[..half]); fr.push((frame(&c, 4), Exp::FragAsIsLast(m_plain.clone()))); }
+                v.push(Item { name: "kfragperm_asis_600_sequences_open_at_once", frames: fr });
+            }
             // two sequences interleaved, in both orders of completion (the one with the larger id first, and last)
             {
                 let mk = |seq: u64| -> Vec<Vec<u8>> {
@@ -332,14 +340,14 @@ fn execute(case: &Case, alpha: &[Item], ctx: &WorkerCtx) -> ExecResult {
                     let r = Connection::receive_message_from_read_half(&mut rh, std::time::Duration::from_secs(1000)).await;
                     let stop = matches!(&r, Err(e) if e.is_connection_closed() || e.is_timeout() || matches!(e, edp_client::Error::Io(_)));
                     l2.lock().unwrap().push(r.map(|(c, p)| (denote(&c.to_term()), p.as_ref().map(denote))).map_err(|e| e.to_string()));
-                    if stop || l2.lock().unwrap().len() > 64 { break; }
+                    if stop || l2.lock().unwrap().len() > 1500 { break; }
                 }
             } else {
                 loop {
                     let r = conn.receive_message().await;
                     let stop = matches!(&r, Err(e) if e.is_connection_closed() || e.is_timeout() || matches!(e, edp_client::Error::Io(_)));
                     l2.lock().unwrap().push(r.map(|(c, p)| (denote(&c.to_term()), p.as_ref().map(denote))).map_err(|e| e.to_string()));
-                    if stop || l2.lock().unwrap().len() > 64 { break; }
+                    if stop || l2.lock().unwrap().len() > 1500 { break; }
                 }
             }
         });
@@ -624,6 +632,7 @@ fn run_filtered(rep: &Report, only: Option<&str>) -> Value {
             let red: Vec<usize> = (0..n).filter(|&i| matches!(alpha[i].name, "send" | "exit" | "tick" | "junk_bytes" | "hdr_identity_slots" | "fragmented_x2" | "frag_header_count_beyond_frame" | "unknown_kind_99")).collect();
             for &a in &red { for &b in &red { for &c in &red { seqs.push(vec![a, b, c]); } } }
         }
+        seqs.retain(|sq| sq.len() <= 1 || !sq.iter().any(|&i| alpha[i].name == "kfragperm_asis_600_sequences_open_at_once"));
         if malformed_only { seqs.retain(|s| s.len() == 1 && alpha[s[0]].frames.iter().all(|(_, e)| matches!(e, Exp::OneErr | Exp::Nothing | Exp::OneResult))); }
         else if only == Some("CACHE") { seqs.retain(|s| s.len() <= 2 && !s.is_empty() && s.iter().all(|&i| alpha[i].name.starts_with("hdr_") || alpha[i].name.starts_with("kfragperm_asis_announces"))); }
         else if let Some(f) = only { seqs.retain(|s| s.len() == 1 && alpha[s[0]].name.starts_with(f)); }
